@@ -462,6 +462,18 @@ pub fn spec(name: &str, m0: &M) -> Exp {
         return Exp::Any;
     }
     if missing(&ft, m0) {
+        // documented for the two index loops: "First the code and the index arguments are saved locally and
+        // popped": without an index the body is taken and nothing runs (or, C10 latitude, nothing is taken)
+        if name == "EXEC.LOOP" && !m0.e.is_empty() {
+            let mut a = m0.clone();
+            a.e.remove(0);
+            return Exp::OneOfOrUnfired(vec![a]);
+        }
+        if name == "CODE.LOOP" && !m0.c.is_empty() {
+            let mut a = m0.clone();
+            a.c.remove(0);
+            return Exp::OneOfOrUnfired(vec![a]);
+        }
         return Exp::Unfired;
     }
     let mut m = m0.clone();
